@@ -279,11 +279,14 @@ def parse_template(text):
                     cur.norule |= set(rest.split())
                 elif kw == "rule":
                     cur.userule |= set(rest.split())
-                elif kw == "subst":
+                elif kw in ("subst", "subst!", "subst?"):
+                    # subst / subst? : applies where it matches (a mutated operand that no longer matches simply stays
+                    # as it is; if Verus then cannot handle the construct the run is undecided, never an alarm);
+                    # subst! : must match at least once (anchor the contract depends on) else lost anchor
                     m = re.match(r"^(R\d+\w*)\s+/(.*)/\s*=>\s?(.*)$", rest)
                     if not m:
                         raise TemplateError("line %d: bad //@subst" % (i + 1))
-                    cur.substs.append((m.group(1), m.group(2), m.group(3)))
+                    cur.substs.append((m.group(1), m.group(2), m.group(3), kw == "subst!"))
                 elif kw in ("requires", "ensures", "decreases", "recommends", "prologue", "epilogue_proof"):
                     curkey = kw
                     cur.clauses.setdefault(curkey, [])
@@ -369,14 +372,15 @@ def process_block(blk, repo_root, log, auto_prologue):
         text, n = fn(text)
         if n:
             entry["rules"][rid] = entry["rules"].get(rid, 0) + n
-    for rid, rx, repl in blk.substs:
+    for rid, rx, repl, required in blk.substs:
         try:
             text, n = re.subn(rx, repl, text, flags=re.S)
         except re.error as e:
             raise TemplateError("bad regex in //@subst at template line %d: %s" % (blk.tline, e))
-        if n == 0:
+        if n == 0 and required:
             raise LostAnchor("rewrite %s /%s/ no longer matches in %s %s" % (rid, rx, blk.file, blk.path))
-        entry["rules"][rid] = entry["rules"].get(rid, 0) + n
+        if n:
+            entry["rules"][rid] = entry["rules"].get(rid, 0) + n
 
     if item["kind"] != "fn":
         # struct / const / type: keep derive(Clone, Copy) only
